@@ -1,7 +1,162 @@
-import Atomman.Prelude
-open Atomman
+import Atomman.C08
+open Atomman Atomman.C07 Atomman.C08
 
-/-- stub: replaced when the C08 model is built. -/
-def handleC08 (_toks : List String) : String := err "op"
+/-! line protocol of the C08 model driver (see harness/props/c08.py for the encoder). -/
+
+abbrev P := StateT (List String) Option
+
+def tok : P String := fun s => match s with
+  | [] => none
+  | t :: r => some (t, r)
+
+def pNat : P Nat := do let t ← tok; (t.toNat? : Option Nat)
+def pRat : P Rat := do let t ← tok; (parseRat? t : Option Rat)
+def pBool : P Bool := do let t ← tok; (parseBool? t : Option Bool)
+def pStr : P String := do let t ← tok; pure (t.replace "+" " ")
+def pMany {α : Type} (n : Nat) (p : P α) : P (List α) := (List.range n).mapM fun _ => p
+def pV3 : P (V3 Rat) := do pure ⟨← pRat, ← pRat, ← pRat⟩
+
+def pUnits : P Units := do
+  let n ← pNat
+  pMany n do
+    let k ← tok
+    let t ← tok
+    if t = "none" then pure (k, none) else
+      match parseRat? t with
+      | some f => pure (k, some f)
+      | none => failure
+
+def hexDigit (n : Nat) : Char := if n < 10 then Char.ofNat (48 + n) else Char.ofNat (87 + n)
+
+def toHex (cs : List Char) : String :=
+  String.ofList (cs.flatMap fun c => [hexDigit (c.toNat / 16), hexDigit (c.toNat % 16)])
+
+def hexVal (c : Char) : Option Nat :=
+  if '0' ≤ c ∧ c ≤ '9' then some (c.toNat - 48)
+  else if 'a' ≤ c ∧ c ≤ 'f' then some (c.toNat - 87) else none
+
+def fromHexAux : List Char → Option (List Char)
+  | [] => some []
+  | [_] => none
+  | a :: b :: r => do
+    let x ← hexVal a; let y ← hexVal b; let rest ← fromHexAux r
+    pure (Char.ofNat (x * 16 + y) :: rest)
+
+def fromHex (s : String) : Option (List Char) := if s = "-" then some [] else fromHexAux s.toList
+
+def pHex : P (List Char) := do let t ← tok; (fromHex t : Option (List Char))
+
+def showHex (cs : List Char) : String := if cs = [] then "-" else toHex cs
+
+/-- `-` = not given, else `n s₁ … sₙ` with `~` for `None`. -/
+def pSymbols : P (Option (List (Option String))) := do
+  let t ← tok
+  if t = "-" then pure none else
+    match t.toNat? with
+    | some n => do
+      let l ← pMany n tok
+      pure (some (l.map fun s => if s = "~" then none else some s))
+    | none => failure
+
+def pLUnit : P LUnit := do
+  let t ← tok
+  if t = "none" then pure .none
+  else if t = "scaled" then pure .scaled
+  else match t.toList with
+    | 'f' :: ':' :: r => match parseRat? (String.ofList r) with | some f => pure (.factor f) | none => failure
+    | _ => failure
+
+def pPCol : P PCol := do
+  let prop ← tok
+  let nn ← pNat; let names ← pMany nn tok
+  let nd ← pNat; let dims ← pMany nd pNat
+  let un ← pLUnit
+  pure { prop := prop, names := names, shape := dims, unit := un }
+
+def pBox : P (Box Rat) := do
+  let r0 ← pV3; let r1 ← pV3; let r2 ← pV3; let o ← pV3
+  pure ⟨⟨r0, r1, r2⟩, o⟩
+
+def run {α : Type} (p : P α) (toks : List String) (k : α → String) : String :=
+  match p toks with
+  | some (a, []) => k a
+  | _ => err "format"
+
+def optStr (o : Option String) : String := match o with | some s => s | none => "~"
+def optRat (o : Option Rat) : String := match o with | some q => showRat q | none => "~"
+
+def showLoaded (s : Loaded) : String :=
+  let props := s.props.map fun p =>
+    p.name ++ " " ++ showBool p.isInt ++ " " ++ toString p.shape.length ++
+      (if p.shape = [] then "" else " " ++ " ".intercalate (p.shape.map toString)) ++ " " ++ toString p.vals.length ++
+      " " ++ toString (p.vals.headD []).length ++
+      (if p.vals.flatten = [] then "" else " " ++ showRats p.vals.flatten)
+  "ok " ++ toString s.natoms ++ " " ++ toString s.natypes ++ " " ++
+    showRats (s.box.vects.toList ++ s.box.origin.toList) ++ " " ++
+    showBool s.pbc.x ++ " " ++ showBool s.pbc.y ++ " " ++ showBool s.pbc.z ++ " " ++
+    toString s.symbolsOut.length ++ (if s.symbolsOut = [] then "" else " " ++ " ".intercalate (s.symbolsOut.map optStr)) ++ " " ++
+    toString s.massesOut.length ++ (if s.massesOut = [] then "" else " " ++ " ".intercalate (s.massesOut.map optRat)) ++ " " ++
+    toString s.props.length ++ (if props = [] then "" else " " ++ " ".intercalate props)
+
+def showRes (r : Res Loaded) : String :=
+  match r with
+  | .ok s => showLoaded s
+  | .error e => err e
+
+def joinToks (l : Line) : String := if l = [] then "-" else ",".intercalate (l.map toHex)
+
+def pShape : P (List Nat) := do let n ← pNat; pMany n pNat
+
+def handleC08 (toks : List String) : String :=
+  match toks with
+  | "ldata" :: rest =>
+    run (do
+      let px ← pBool; let py ← pBool; let pz ← pBool
+      let sy ← pSymbols
+      let st ← tok
+      let u ← pUnits
+      let t ← pHex
+      pure ((⟨px, py, pz⟩ : V3 Bool), sy, (if st = "-" then none else some (st.replace "+" " ")), u, t)) rest
+      fun (pbc, sy, st, u, t) => showRes (loadData t pbc sy st u)
+  | "ldump" :: rest =>
+    run (do
+      let sy ← pSymbols
+      let hasPi ← pBool
+      let n ← pNat
+      let cols ← pMany n pPCol
+      let u ← pUnits
+      let t ← pHex
+      pure (sy, (if hasPi then some cols else none), u, t)) rest
+      fun (sy, given, u, t) => showRes (loadDump t sy given u)
+  | "ltable" :: rest =>
+    run (do
+      let header ← pBool
+      let box ← pBox
+      let n ← pNat
+      let cols ← pMany n pPCol
+      let t ← pHex
+      pure (header, box, cols, t)) rest
+      fun (header, box, cols, t) => showRes (loadTable t box cols header)
+  | "lposcar" :: rest =>
+    run (do let sy ← pSymbols; let t ← pHex; pure (sy, t)) rest fun (sy, t) => showRes (loadPoscar t sy)
+  | "rows" :: rest =>
+    run (do
+      let c ← pBool; let skip ← pNat; let nr ← tok; let t ← pHex
+      pure (c, skip, (if nr = "-" then none else nr.toNat?), t)) rest
+      fun (c, skip, nr, t) => "ok " ++ "|".intercalate ((selectRows c (splitLines t) skip nr).map joinToks)
+  | "reshape" :: rest =>
+    run (do
+      let shape ← pShape
+      let n ← pNat
+      let vals ← pMany n pRat
+      pure (shape, vals)) rest
+      fun (shape, vals) =>
+        match reshape shape vals with
+        | none => err "value"
+        | some t =>
+          "ok " ++ showRats t.flatten ++ " | " ++ " ".intercalate ((allIndices shape).map (indexName "p")) ++ " | " ++
+            " ".intercalate ((allIndices shape).map fun ix => match t.get? ix with | some q => showRat q | none => "?") ++
+            " | " ++ showBool (t.hasShape shape)
+  | _ => err "op"
 
 def main : IO Unit := runDriver handleC08
